@@ -54,6 +54,9 @@ func NewInverseWishartDistribution(nu Scalar, s Matrix) (*InverseWishartDistribu
   if n != m {
     return nil, fmt.Errorf("NewInverseWishartDistribution(): S is not a square matrix!")
   }
+  if nu.GetFloat64() <= float64(n) - 1.0 {
+    return nil, fmt.Errorf("NewInverseWishartDistribution(): nu must be greater than n-1")
+  }
   sDet, err := determinant.Run(s, determinant.PositiveDefinite{true})
   if err != nil {
     return nil, err
